@@ -371,7 +371,7 @@ func (p c06) Run(c *core.Ctx) {
 	// (which must not change anything)
 	if r.Chance(1, 3) {
 		snap := pair.R.DR.Snapshot()
-		if err := pair.R.DR.RestoreAt(snap); err != nil {
+		if err := pair.R.RestoreAt(snap); err != nil {
 			c.Violate("restoring a runner from its own initial snapshot failed: "+err.Error(), map[string]any{"readers": scripts})
 			return
 		}
